@@ -173,7 +173,15 @@ func kinds() []*kind {
 	// http formats with a chosencases list that names every tag of the file: limit counts delivered entries
 	for _, base := range []*kind{ks[0], ks[1], ks[6]} {
 		b := base
-		ks = append(ks, &kind{Name: b.Name + "+chosencases", Type: b.Type, File: b.File, Preload: b.Preload, Render: b.Render, Extract: b.Extract, Conf: func(k *kind, limit, passes int) map[string]any {
+		// the file starts with an entry whose tag is not listed: the chosen entries come after it
+		render := func(e int) []byte {
+			skip := "/skip skiptag\n"
+			if b.Type == "http/json" {
+				skip = `{"tag":"skiptag","uri":"/skip","method":"GET","host":"h"}` + "\n"
+			}
+			return append([]byte(skip), b.Render(e)...)
+		}
+		ks = append(ks, &kind{Name: b.Name + "+chosencases", Type: b.Type, File: b.File, Preload: b.Preload, Render: render, Extract: b.Extract, Conf: func(k *kind, limit, passes int) map[string]any {
 			m := httpConf(k, limit, passes)
 			m["chosencases"] = []any{"t0", "t1", "t2", "t3"}
 			return m
